@@ -308,6 +308,16 @@ class Vector():
 			name = use_name,
 			as_row = self._display_as_row)
 	
+	def __copy__(self):
+		# copy.copy / copy.deepcopy must give what .copy() gives: a registered vector over storage of
+		# its own. The default protocol builds the object without __init__, so the copy shared the
+		# original's tuple without being known to the alias tracker, and the first storage swap on it
+		# (e.g. the roll-back of a failed table write) made both objects refuse every later write.
+		return self.copy()
+
+	def __deepcopy__(self, memo):
+		return self.copy([deepcopy(x, memo) for x in self._underlying])
+
 	def to_object(self):
 		"""
 		Convert this vector to object dtype, allowing mixed types.
